@@ -104,6 +104,11 @@ func runRT(c rtCase, r *pb.Rec) error {
 	if e3 != string(enc) {
 		return fmt.Errorf("%s FormatToString differs: %q vs %q", cd.name, e3, enc)
 	}
+	// the same bytes in a slice with spare capacity (also: length 0 with capacity > 0, the shape of buf[:0])
+	roomy := append(make([]byte, 0, len(c.S)+5), c.S...)
+	if e6, e7 := cd.format(roomy), cd.formatStr(roomy); string(e6) != string(enc) || e7 != string(enc) {
+		return fmt.Errorf("%s Format differs for a slice with spare capacity (len %d cap %d) holding %q: %q / %q vs %q", cd.name, len(roomy), cap(roomy), c.S, e6, e7, enc)
+	}
 	if e4, e5 := cd.formatN(nstr(c.S)), cd.formatStrN(nbytes(c.S)); string(e4) != string(enc) || e5 != string(enc) {
 		return fmt.Errorf("%s Format differs for defined string/[]byte types on %q: %q / %q vs %q", cd.name, c.S, e4, e5, enc)
 	}
@@ -211,6 +216,9 @@ func checkTotal(cd codec, in []byte) error {
 	}
 	if s2 := cd.parseStrB(in); s2 != s {
 		return fmt.Errorf("%s ParseToString differs for string and []byte input %q: %q vs %q", cd.name, in, s, s2)
+	}
+	if s5 := cd.parseStrB(append(make([]byte, 0, len(in)+5), in...)); s5 != s {
+		return fmt.Errorf("%s ParseToString differs for a slice with spare capacity holding %q: %q vs %q", cd.name, in, s5, s)
 	}
 	if s3, s4 := cd.parseStrN(nstr(in)), cd.parseStrNB(nbytes(in)); s3 != s || s4 != s {
 		return fmt.Errorf("%s ParseToString differs for defined string/[]byte types on input %q: %q / %q vs %q", cd.name, in, s3, s4, s)
@@ -404,13 +412,13 @@ func runEmb(c embCase, r *pb.Rec) error {
 }
 
 func init() {
-	pb.Register("roundtrip_shape", pb.Options{Base: 12000, Required: []string{"invalid byte -> U+FFFD", "surrogate pair"},
+	pb.Register("roundtrip_shape", pb.Options{Twins: 3, Base: 12000, Required: []string{"invalid byte -> U+FFFD", "surrogate pair"},
 		Rule: "arbitrary byte strings (octal/hex), valid UTF-8 biased to width boundaries and strings with invalid bytes (\\U, \\u); oracle Parse(Format(s)) = s (invalid bytes -> U+FFFD), shape regexp, escape count, surrogate pairing; non-trivial = >= 2 input bytes"},
 		genRT, runRT)
-	pb.Register("tokens_random", pb.Options{Base: 15000, Required: []string{"escape at end of input", "backslash-free"},
+	pb.Register("tokens_random", pb.Options{Twins: 3, Base: 15000, Required: []string{"escape at end of input", "backslash-free"},
 		Rule: "random sequences of up to 12 hostile tokens + up to 4 raw bytes; oracle no panic, n <= len, Parse == ParseToString (string and []byte), backslash-free => identity; non-trivial = >= 2 backslash tokens"},
 		genTok, runTok)
-	pb.Register("embedded", pb.Options{Base: 12000, Required: []string{"surrogate pair embedded", "adjacent escapes", "escape at end of input"},
+	pb.Register("embedded", pb.Options{Twins: 3, Base: 12000, Required: []string{"surrogate pair embedded", "adjacent escapes", "escape at end of input"},
 		Rule: "L0 E1 L1 ... En Ln with backslash-free literals (may look like digits / u / x / U, may be empty) and well-formed upper-case escapes (\\u: non-surrogate unit or high+low pair; \\U: scalar value); oracle: output = L0 dec(E1) L1 ...; non-trivial = >= 2 escapes"},
 		genEmb, runEmb)
 	pb.RegisterReplay("tokens_exhaustive_octal", replayTok)
